@@ -1865,9 +1865,9 @@ Proof.
   unfold stream_io. destruct (uv_write_queue_prog s) as [A B].
   destruct (write_callbacks_prog _ A) as [C D].
   set (s2 := write_callbacks beh (uv_write_queue s)) in *.
-  destruct (wq s2) eqn:Hq.
-  - destruct (drain_prog s2 (or_introl Hq)) as [E F]. split; auto. unfold cl_mono in *; auto.
-  - split; auto. unfold cl_mono in *; auto.
+  destruct (wq s2) eqn:Hq; [|split; auto; unfold cl_mono in *; auto].
+  destruct (cq s2); [|split; auto; unfold cl_mono in *; auto].
+  destruct (drain_prog s2 (or_introl Hq)) as [E F]. split; auto. unfold cl_mono in *; auto.
 Qed.
 
 Lemma destroy_prog s : closing s = true -> Prog (destroy beh s) /\ cl_mono s (destroy beh s).
